@@ -77,7 +77,7 @@ func (x *Exec) checkWire(o *Obs, reqs []*reqInfo, emits []emit, dels []deliver, 
 	}
 	for i, e := range emits {
 		if !usedE[i] && !e.optional {
-			x.fail([]string{"C05", "C06", "C07", "C14"}, "authorised-not-relayed", "%s: %d bytes for %v were authorised (live permission/channel) but never left the relay socket", ctx, len(e.payload), e.to)
+			x.fail([]string{"C05", "C06", "C07", "C14", "C09"}, "authorised-not-relayed", "%s: %d bytes for %v were authorised (live permission/channel) but never left the relay socket", ctx, len(e.payload), e.to)
 
 			return
 		}
@@ -185,7 +185,7 @@ func (x *Exec) checkWire(o *Obs, reqs []*reqInfo, emits []emit, dels []deliver, 
 	}
 	for i, dl := range dels {
 		if !usedD[i] && !dl.optional {
-			x.fail([]string{"C05", "C06", "C07", "C14"}, "authorised-not-delivered", "%s: %d bytes from authorised peer %v never reached client %d", ctx, len(dl.payload), dl.peer, dl.client)
+			x.fail([]string{"C05", "C06", "C07", "C14", "C09"}, "authorised-not-delivered", "%s: %d bytes from authorised peer %v never reached client %d", ctx, len(dl.payload), dl.peer, dl.client)
 
 			return
 		}
